@@ -63,16 +63,28 @@ pub struct Script {
     pub end: End,
     /// number of bitmap PDUs sent before the end event
     pub end_after: usize,
+    /// bitmap PDU 0 is already decrypted inside the client's TLS layer when the receive thread starts: it rode in
+    /// the TLS record of the last PDU that was read before the thread was launched (connection / activation)
+    pub preloaded: bool,
 }
 
 pub fn scripts() -> Vec<Script> {
     let mut v = vec![];
     for packing in [Packing::OnePerRecord, Packing::TwoThenOne, Packing::ThreeInOne, Packing::PduAcrossTwoRecords, Packing::RecordAcrossTwoSegments, Packing::OnePerRecordWithPauses, Packing::EmptyPdusInside] {
-        v.push(Script { packing, end: End::None, end_after: 3 });
+        v.push(Script { packing, end: End::None, end_after: 3, preloaded: false });
         for end in [End::DisconnectUltimatum, End::CloseNotify, End::AbruptClose, End::UndecodableRdpKind, End::UndecodableIoKind, End::UndecodableEmptyFrame] {
             for end_after in 0..=3 {
-                v.push(Script { packing, end, end_after });
+                v.push(Script { packing, end, end_after, preloaded: false });
             }
+        }
+    }
+    // a PDU left in the TLS layer by whoever read last before the thread was started
+    for packing in [Packing::OnePerRecord, Packing::TwoThenOne, Packing::PduAcrossTwoRecords] {
+        v.push(Script { packing, end: End::None, end_after: 3, preloaded: true });
+        v.push(Script { packing, end: End::None, end_after: 1, preloaded: true });
+        for end in [End::DisconnectUltimatum, End::AbruptClose, End::CloseNotify] {
+            v.push(Script { packing, end, end_after: 2, preloaded: true });
+            v.push(Script { packing, end, end_after: 1, preloaded: true });
         }
     }
     v
@@ -485,7 +497,13 @@ fn build_actions(script: &Script, peer: &mut TlsPeer, st: &mut State) -> Vec<Env
     let mut actions = vec![];
     let mut raw_off = 0usize;
     let mut pdus_done = 0usize;
-    let pdus: Vec<Vec<u8>> = (0..script.end_after as u16).map(bitmap_pdu).collect();
+    let first = if script.preloaded { 1 } else { 0 };
+    if script.preloaded {
+        // already consumed from the socket: complete before any byte of the scheduled phase
+        pdus_done = 1;
+        st.record_ends.push((0, 1));
+    }
+    let pdus: Vec<Vec<u8>> = (first..script.end_after as u16).map(bitmap_pdu).collect();
     let mut push_record = |plain: &[u8], completes: usize, split_segment: bool, actions: &mut Vec<EnvAction>, st: &mut State, raw_off: &mut usize, pdus_done: &mut usize| {
         let rec = peer.encrypt(plain);
         *raw_off += rec.len();
@@ -631,6 +649,15 @@ fn execution(script: Script) {
             return record(vec![], Some("activation failed".into()));
         }
         reads += 1;
+    }
+    if script.preloaded {
+        // one TLS record = [set-error-info, bitmap PDU 0]; the set-up reads the first PDU only
+        let sei = framing::tpkt(&framing::x224_dt(&mcs::send_data_indication(1002, 1003, &vref::share::set_error_info(0x000103EA, 1002, 0))));
+        let rec = peer.borrow_mut().encrypt(&[sei, bitmap_pdu(0)].concat());
+        link.setup.sh.borrow_mut().push_to_client(&rec);
+        if client.read(|_| {}).is_err() {
+            return record(vec![], Some("preload read failed".into()));
+        }
     }
     let actions = {
         let mut st = c.st.borrow_mut();
